@@ -151,7 +151,16 @@ class LPRun:
         s = self.of('solve')
         return s[0].order if s else None
 
-    def declvars(self):
+    def declvars(self, rep=None, rule=None):
+        """declared LP variables in closed form; a declaration outside the closed forms raises AnalysisError (callers answer
+        inconclusive) instead of being handed on with empty fields"""
+        out = self._declvars()
+        bad = [d for d in out if 'err' in d]
+        if bad:
+            raise AnalysisError('LP variable declared at %s is outside the closed forms: %s' % (bad[0]['site'], bad[0]['err']))
+        return out
+
+    def _declvars(self):
         out = []
         for ev in self.of('declvar'):
             cn = self.canon
